@@ -47,7 +47,7 @@ LEAVES = [
     B(ret=['ok'], meas='fail', opts={'stop_on_measurement_fail': True}),
     B(ret=['ok'], meas='unset', opts={'stop_on_measurement_fail': True}),
     B(ret=['ok'], opts={'run_if': 'false'}), B(ret=['ok'], opts={'run_if': 'true'}), B(ret=['ok'], opts={'run_if': 'raise'}),
-    B(ret=['fail'], opts={'run_if': 'false'}),
+    B(ret=['fail'], opts={'run_if': 'false'}), B(ret=['fail'], opts={'run_if': 'none'}), B(ret=['raise'], opts={'run_if': 'zero'}),
     B(ret=['ok'], opts={'run_if': 'false', 'repeat_on_measurement_fail': True}),
     B(ret=['ok'], opts={'run_if': 'false', 'force_repeat': True}),
 ]
@@ -56,7 +56,7 @@ SECOND = [B(ret=['ok']), B(ret=['fail']), B(ret=['raise']), B(ret=['hang']), B(r
 
 SETTINGS = [
     {}, {'sof': 'option'}, {'sof': 'conf'}, {'allow_unset': True}, {'failure_exceptions': True},
-    {'test_diag': ['TA']}, {'test_diag': ['TF']}, {'test_diag': ['raise']}, {'test_diag': ['TF', 'TFok']},
+    {'test_diag': ['TA']}, {'test_diag': ['TF']}, {'test_diag': ['raise']}, {'test_diag': ['TF', 'TFok']}, {'test_diag': ['TFgen']},
 ]
 SETTINGS_PAIRS = [
     {'sof': 'option', 'allow_unset': True}, {'sof': 'option', 'failure_exceptions': True},
@@ -127,7 +127,7 @@ def soundness(spec, settings, obs):
           if calls.get(n['name']):
             bad.append(('ran-in-untaken-branch', 'leaf %s ran although its branch record says not taken' % n['name']))
           continue
-        if n['beh'].get('opts', {}).get('run_if') == 'false':
+        if n['beh'].get('opts', {}).get('run_if') in ('false', 'none', 'zero', 'empty'):
           if calls.get(n['name']) or n['name'] in last_rec:
             bad.append(('run_if-false-ran', 'leaf %s has run_if false but calls=%r record=%r'
                         % (n['name'], calls.get(n['name']), last_rec.get(n['name']))))
